@@ -18,7 +18,9 @@ def classify(f, src=""):
     if key.startswith("impl-failure:crash:"):
         # a signal has no site.  The listed class is "formatting an aggregate": the crash must disappear
         # when the arguments of every print!/format!/eprint! are replaced by an empty string
-        key += ":print" if ("print!" in src or "format!" in src) and crash_is_formatting(src) else ":noprint"
+        if ("print!" in src or "format!" in src) and crash_is_formatting(src): key += ":print"
+        elif __import__("re").search(r"\[[^\]\[]*\]\s*\[\]", src): key += ":array-of-unsized"    # a `[]T` written as the element of an array
+        else: key += ":noprint"
     return key
 
 
